@@ -123,6 +123,9 @@ type crashEngine struct {
 	dynMemo  map[ssa.Value]*typeSet
 	exclude  func(f *ssa.Function) bool
 	fmtTable map[int64]*valFmtInfo
+	// subset: this engine looks at part of the reachable set only, so unused
+	// triage entries are expected and not worth an info line
+	subset bool
 }
 
 func newCrashEngine(ctx *core.Ctx, r *core.Report, roots []*ssa.Function, exclude func(*ssa.Function) bool) *crashEngine {
@@ -945,6 +948,9 @@ func (e *crashEngine) record(rule string, sites []crashSite, triaged map[string]
 		}
 	}
 	sort.Strings(stale)
+	if e.subset {
+		stale = nil
+	}
 	for _, k := range stale {
 		e.r.Infof("triage entry no longer matches any undischarged site: %s", k)
 	}
